@@ -91,6 +91,16 @@ def judge(c, prop, bads, lines, recs):
         if not what.startswith(prefixes):
             continue
         e = json.loads(lines[b["l"] - 1])
+        if e.get("fn") in ("txn", "blocked", "snapcheck"):
+            if e["fn"] == "snapcheck":
+                txt = "a %s taken earlier (snapshot %s) returned different contents after step %s of history %s" % (e["kind"], e["id"], e["step"], e["hist"])
+            elif e["fn"] == "txn":
+                txt = "%s of the session transaction (error=%s, store rejected=%s): %s; committed before {%s}; working copy {%s}; committed after {%s}" % (
+                    e["what"], e["err"], e.get("storefail"), what, brief_state(e["cpre"]["state"])[:400], brief_state(e["wpre"]["state"])[:400], brief_state(e["cpost"]["state"])[:400])
+            else:
+                txt = "%s while a session transaction is open: %s; error=%s; committed before {%s} after {%s}" % (e["op"], what, e["err"], brief_state(e["cpre"]["state"])[:400], brief_state(e["cpost"]["state"])[:400])
+            c.violation(what, txt, {"spec": b, "hist": e.get("hist"), "step": e.get("step")})
+            continue
         if e.get("fn") == "mutate":
             c.violation(what, "after %s (%s): the database changed although this is a stuttering step: %s" % (e["op"], {"read": "a read-only call", "arguments": "the caller overwrote the arguments in place", "results": "the caller overwrote the returned values in place"}.get(e["what"], e["what"]),
                         "stored documents differ" if e["pre"]["tok"] != e["post"]["tok"] else "observed state differs"),
@@ -126,6 +136,9 @@ def cover(c, lines, nontrivial, stride=3):
             if i % 50 == 0:
                 nontrivial.add(("clean", e["len"], e["dropped"], e["minSize"], e["maxSize"]))
             continue
+        if e.get("fn") in ("txn", "blocked", "snapcheck"):
+            nontrivial.add((e["fn"], e.get("what") or e.get("kind") or e.get("op"), e.get("err"), e.get("storefail")))
+            continue
         if e.get("fn") == "mutate":
             nontrivial.add(("mutate", e["op"], e["what"]))
             continue
@@ -138,7 +151,7 @@ def cover(c, lines, nontrivial, stride=3):
         if e.get("fn") != "call":
             continue
         changed = e["pre"] != e["post"]
-        nontrivial.add((e["op"], e["res"]["err"], changed, len(e["ev"]) > 0))
+        nontrivial.add((e["op"], e["res"]["err"], changed, len(e["ev"]) > 0, e.get("actor", "")))
         if len(c.cov["samples"]) < 4 and i % 997 == 0:
             c.sample({"call": brief_call(e), "before": brief_state(e["pre"])[:300], "error": e["res"]["err"], "after": brief_state(e["post"])[:300]})
 
